@@ -46,14 +46,14 @@ def get_target(dotted):
     return obj
 
 
-def verify(target_name, setup, post, config=None, ledger=None, max_paths=2000, call=None):
+def verify(target_name, setup, post, config=None, ledger=None, max_paths=2000, call=None, quant_feas=False):
     """Explore all paths of a target.
 
     setup(ctx, interp) -> (fn, args, kwargs, env)    builds symbolic arguments, adds assumptions
     post(outcome, env)                               proves the contract clauses with ctx.prove(...)
     """
     ledger = ledger if ledger is not None else Ledger()
-    ex = Explorer(target_name, ledger, max_paths=max_paths)
+    ex = Explorer(target_name, ledger, max_paths=max_paths, quant_feas=quant_feas)
     cfg = config or Config()
 
     def run(ctx):
@@ -75,6 +75,8 @@ def verify(target_name, setup, post, config=None, ledger=None, max_paths=2000, c
     try:
         ex.explore(run)
     except OutsideSubset as exc:
+        if __import__("os").environ.get("PYVC_TRACE"):
+            raise
         ledger.record(f"{target_name}::subset", "subset", "unknown", "executor", 0.0, detail=f"outside subset: {exc}")
     if ex.paths == 0:
         ledger.record(f"{target_name}::cover.any-path", "cover", "unknown", "executor", 0.0, detail="no feasible path: vacuous")
